@@ -1,5 +1,5 @@
 (* C01 / C17: levels, the registry and the admission rule (slog/level.go). *)
-Require Import Verif.Model.Base Verif.Model.Decision.
+Require Import Verif.Model.Base Verif.Model.Decision Verif.Model.Dec.
 
 Definition lv_panic : Z := 0.   Definition lv_fatal : Z := 1.   Definition lv_error : Z := 2.
 Definition lv_warn : Z := 3.    Definition lv_info : Z := 4.    Definition lv_debug : Z := 5.
@@ -48,23 +48,23 @@ Definition no_opts : regopts := {| o_tags := []; o_clr := -1; o_bg := -1; o_trea
 
 Inductive reg_result := RegOk | RegDupValue | RegDupTitle.
 
+Definition tag_row (v : Z) (ts : list bytes) (row : Z * list (Z * bytes)) : Z * list (Z * bytes) :=
+  match nth_error ts (Z.to_nat (fst row)) with
+  | Some (c :: s) => if (0 <=? fst row) && (fst row <? 6) then (fst row, snd row ++ [(v, c :: s)]) else row
+  | _ => row
+  end.
 Definition tags_add (tags : list (Z * list (Z * bytes))) (v : Z) (ts : list bytes) : list (Z * list (Z * bytes)) :=
-  map (fun row : Z * list (Z * bytes) =>
-         let '(n, m) := row in
-         match nth_error ts (Z.to_nat n) with
-         | Some (c :: s) => if (0 <=? n) && (n <? 6) then (n, m ++ [(v, c :: s)]) else (n, m)
-         | _ => (n, m)
-         end) tags.
+  map (tag_row v ts) tags.
 
 (* RegisterLevel *)
 Definition register (g : registry) (v : Z) (title : bytes) (o : regopts) : registry * reg_result :=
   if memZ (r_all g) v then (g, RegDupValue)
-  else match lookupB (r_s2l g) title with
+  else match lookupB (r_s2l g) (to_lower title) with   (* titles are kept and looked up in lower case *)
   | Some _ => (g, RegDupTitle)
   | None =>
     ({| r_all := r_all g ++ [v];
         r_l2s := r_l2s g ++ [(v, title)];
-        r_s2l := r_s2l g ++ [(title, v)];
+        r_s2l := r_s2l g ++ [(to_lower title, v)];
         r_tags := tags_add (r_tags g) v (o_tags o);
         r_as := if o_treat o <? lv_max then r_as g ++ [(v, o_treat o)] else r_as g;
         r_errdev := if o_err o then r_errdev g ++ [v] else r_errdev g;
@@ -72,3 +72,35 @@ Definition register (g : registry) (v : Z) (title : bytes) (o : regopts) : regis
                     else r_colors g ++ [(v, if o_bg o =? -1 then [o_clr o] else [o_clr o; o_bg o])] |},
      RegOk)
   end.
+
+(* ---- names ---- *)
+(* Level.String *)
+Definition level_string (g : registry) (l : Z) : bytes :=
+  match lookupZ (r_l2s g) l with
+  | Some t => t
+  | None => x4c :: x23 :: dec_of_Z l     (* fmt.Sprintf("L#%d", int(level)) *)
+  end.
+
+(* ParseLevel *)
+Definition parse_level (g : registry) (s : bytes) : option Z := lookupB (r_s2l g) (to_lower s).
+
+(* MarshalText / UnmarshalText *)
+Definition marshal_text (g : registry) (l : Z) : option bytes := lookupZ (r_l2s g) l.
+Definition unmarshal_text (g : registry) (s : bytes) : option Z := parse_level g s.
+
+(* ShortTag(length); None = the call panics (length outside 1..5) *)
+Definition short_tag (g : registry) (n : Z) (l : Z) : option bytes :=
+  if (n <=? 0) || (6 <=? n) then None
+  else
+    match match lookupZ (r_tags g) n with Some m => lookupZ m l | None => None end with
+    | Some t => Some t
+    | None =>
+        let t := level_string g l in
+        let k := Z.to_nat n in
+        match t with
+        | [] => Some (repeat x3f k)
+        | _ => if Nat.eqb (length t) k then Some t
+               else if Nat.ltb (length t) k then Some (firstn k (t ++ repeat x20 k))
+               else Some (firstn k t)
+        end
+    end.
